@@ -73,6 +73,8 @@ def gen(rnd, swb, cwb, snct, cnct):
         op = 1 if kind == "text" else 2
         if comp:
             final = rnd.random() < pfinal
+            if final and rnd.random() < 0.4:
+                final = "mid"      # the stream ends inside the message and a new one carries the rest
             z = peer.compress(p, final=final)
             ztape.append((p, True) if final else p)
             nfr = rnd.choice([1, 1, 2, 3]) if len(z) < 200 else rnd.choice([1, 2, 3])
